@@ -857,13 +857,16 @@ def fam_gqa(st):
     from onnxscript.rewriter.ort_fusions._core import fuse_xformers
     from onnxscript.rewriter.ort_fusions.gqa import fuse_gqa
     from onnxscript.rewriter.ort_fusions.sdpa import fuse_sdpa
+    from onnxscript.rewriter.ort_fusions.sdpa_via_mha import replace_sdpa_by_mha
     ctx, rng = st.ctx, st.ctx.rng
     fam = "gqa"
 
     def rules(m):
         ShapeInferencePass()(m)
         onnxscript.optimizer.optimize(m)
-        return {"sdpa": fuse_sdpa(m), "gqa": fuse_gqa(m)}
+        c = {"sdpa": fuse_sdpa(m), "gqa": fuse_gqa(m)}
+        replace_sdpa_by_mha(m)        # an SDPA node that no fusion consumed is lowered, as fuse_xformers does
+        return c
 
     def fx(m):
         return {k: v for k, v in fuse_xformers(m)[1].items() if v}
